@@ -241,22 +241,34 @@ def owners(run, a, b, i):
     if opc in QUIET:
         own.add("C19")
     # what differs
+    kind_own = set(own)
     if ops[i].startswith("dump"):
         di, dm = parse_dump(impl_i), parse_dump(model_i)
+        fields = set()
         for k in set(di) | set(dm):
             x, y = di.get(k), dm.get(k)
             if x == y:
                 continue
             if k != r["key"] and opc not in (0x08, 0x18):
                 own.add("C01")  # a command changed another key
+                fields.add("other-key")
             if x is None or y is None:
-                # presence differs: expiry bookkeeping or deletion
-                own |= {"C05"} if (x or y).get("ttl", "0") != "0" else set()
+                fields.add("presence")
+                if (x or y).get("ttl", "0") != "0":
+                    own.add("C05")
                 continue
-            if x["ts"] != y["ts"] or x["ttl"] != y["ttl"]:
-                own.add("C05")
-            if x["c"] != y["c"]:
-                own.add("C02")
+            for fld in ("v", "f", "c", "ts", "ttl"):
+                if x[fld] != y[fld]:
+                    fields.add(fld)
+        if fields and fields <= {"c"}:
+            return {"C02"}, f"only CAS values differ after opcode {opc:#x} key {r['key'][:16]}"
+        if fields and fields <= {"ts", "ttl", "c"}:
+            own = (own - kind_own) | {"C05"} | ({"C02"} if "c" in fields else set())
+            return own, f"only expiry bookkeeping differs after opcode {opc:#x} key {r['key'][:16]}"
+        if "c" in fields:
+            own.add("C02")
+        if "ts" in fields or "ttl" in fields:
+            own.add("C05")
     else:
         # response differs: was the addressed item expired at that moment (model's view)?
         now = 0
@@ -270,13 +282,12 @@ def owners(run, a, b, i):
                 break
         if prev_dump and r["key"] in prev_dump:
             e = prev_dump[r["key"]]
-            if e["ttl"] != "0":
+            if e["ttl"] != "0" and int(e["ts"]) + int(e["ttl"]) <= now:
                 own.add("C05")
-        # cas in response differs?
         if impl_i.startswith("resp ") and model_i.startswith("resp "):
             bi, bm = impl_i[5:].split(" ")[0], model_i[5:].split(" ")[0]
             if len(bi) >= 48 and len(bm) >= 48 and bi[:32] == bm[:32] and bi[32:48] != bm[32:48] and bi[48:] == bm[48:]:
-                own.add("C02")
+                return {"C02"}, f"only the CAS in the response differs, opcode {opc:#x} key {r['key'][:16]}"
             if (len(bi) >= 48) != (len(bm) >= 48):
                 own |= {"C12", "C19"}
             if len(bi) >= 48 and len(bm) >= 48 and bi[:4] != bm[:4]:
